@@ -11,7 +11,7 @@ package subscribe
 //@ # (the lists in the map hold no nil registration: the subscribe branch only ever appends &info)
 //@ extern func (*sync.Map).Load
 //@   dyntype value []*subscribe.subInfo
-//@   ensures forall i :: 0 <= i && i < len(dyn(value)) ==> dyn(value)[i] != nil
+//@   ensures forall i :: 0 <= i && i < len(dyn(value)) ==> dyn(value)[i] != nil && dyn(value)[i].notifier != nil
 //@   assigns nothing
 //@ extern func (*sync.Map).Store
 //@   assigns nothing
@@ -22,6 +22,7 @@ package subscribe
 //@ func (*subPub).process
 //@   property C40
 //@   requires s != nil
+//@   note noreturn
 //@   loop 1 invariant s != nil
 //@   # subscribe: the new registration goes to the end, the existing entries stay in place and in order
 //@   callassert Map.Store#1 appended-at-the-end: len(slice) >= 1 && slice[len(slice) - 1] != nil && slice[len(slice) - 1].notifier == info.notifier && slice[len(slice) - 1].key == info.key
@@ -32,3 +33,14 @@ package subscribe
 //@   # (absolute region index k, so that shifted reads still match the fact)
 //@   loop 2 invariant forall k :: cSlice.off <= k && k < cSlice.off + len(cSlice) ==> cSlice[k - cSlice.off] != nil
 //@   loop 2 assigns region(cSlice)
+
+//@ # publishing: every registration under the namespace key and under the parameter key is notified,
+//@ # with the key it was registered under
+//@ func (*subPub).Publish
+//@   property C40
+//@   requires s != nil
+//@   ensures result == nil
+//@   callassert INotifier.Notify notified-under-its-own-key: 0 <= i && i < len(keyList) && $0 != nil
+//@   loop 1 invariant 0 <= i && i <= len(keyList) && 1 <= len(keyList) && len(keyList) <= 2
+//@   loop 2 invariant 0 <= i && i < len(keyList) && 1 <= len(keyList) && len(keyList) <= 2 && 0 - 1 <= rangeindex && rangeindex < len(slice)
+//@   loop 2 invariant forall k :: 0 <= k && k < len(slice) ==> slice[k] != nil && slice[k].notifier != nil
